@@ -175,7 +175,7 @@ func (c *XAConn) createOnceTxContext(ctx context.Context) bool {
 	return onceTx
 }
 
-func (c *XAConn) createNewTxOnExecIfNeed(ctx context.Context, f func() (types.ExecResult, error)) (types.ExecResult, error) {
+func (c *XAConn) createNewTxOnExecIfNeed(ctx context.Context, f func() (types.ExecResult, error)) (result types.ExecResult, resultErr error) {
 	var (
 		tx  driver.Tx
 		err error
@@ -191,6 +191,10 @@ func (c *XAConn) createNewTxOnExecIfNeed(ctx context.Context, f func() (types.Ex
 					log.Errorf("conn at rollback error:%v", rollbackErr)
 				}
 			}
+		}
+		if recoverErr != nil {
+			// the caller dereferences the result when there is no error
+			result, resultErr = nil, fmt.Errorf("xa exec panic: %v", recoverErr)
 		}
 	}()
 
@@ -219,6 +223,8 @@ func (c *XAConn) createNewTxOnExecIfNeed(ctx context.Context, f func() (types.Ex
 			if err := c.Rollback(ctx); err != nil {
 				log.Errorf("xa connection proxy rollback failure xid:%s, err:%v", c.txCtx.XID, err)
 			}
+			// the branch did not reach PREPARED: the statement has not taken effect
+			return nil, err
 		}
 	}
 
@@ -332,26 +338,34 @@ func (c *XAConn) Commit(ctx context.Context) error {
 	}
 
 	now := time.Now()
-	if c.end(ctx, xa.TMSuccess) != nil {
-		return c.commitErrorHandle(ctx)
+	if err := c.end(ctx, xa.TMSuccess); err != nil {
+		return c.commitErrorHandle(ctx, err, false)
 	}
 
-	if c.checkTimeout(ctx, now) != nil {
-		return c.commitErrorHandle(ctx)
+	if err := c.checkTimeout(ctx, now); err != nil {
+		return c.commitErrorHandle(ctx, err, true)
 	}
 
-	if c.xaResource.XAPrepare(ctx, c.xaBranchXid.String()) != nil {
-		return c.commitErrorHandle(ctx)
+	if err := c.xaResource.XAPrepare(ctx, c.xaBranchXid.String()); err != nil {
+		return c.commitErrorHandle(ctx, err, true)
 	}
 	// phase one of this branch is over: the connection must be usable for the next branch
 	c.cleanXABranchContext()
 	return nil
 }
 
-func (c *XAConn) commitErrorHandle(ctx context.Context) error {
-	var err error
-	if err = c.XaRollback(ctx, c.xaBranchXid); err != nil {
-		err = fmt.Errorf("failed to report XA branch commit-failure xid:%s, err:%w", c.txCtx.XID, err)
+// commitErrorHandle rolls the branch back after XA END or XA PREPARE failed and returns the failure:
+// the caller must learn that the branch did not reach PREPARED even when the rollback went fine.
+func (c *XAConn) commitErrorHandle(ctx context.Context, cause error, ended bool) error {
+	if !ended {
+		// still ACTIVE as far as the database is concerned: XA ROLLBACK is only legal after XA END
+		if endErr := c.xaResource.End(ctx, c.xaBranchXid.String(), xa.TMFail); endErr != nil {
+			log.Errorf("failed to end(TMFAIL) xa branch on [%v] - [%v], err:%v", c.txCtx.XID, c.xaBranchXid.GetBranchId(), endErr)
+		}
+	}
+	err := fmt.Errorf("xa branch of xid:%s failed in phase one and was rolled back, err:%w", c.txCtx.XID, cause)
+	if rollbackErr := c.XaRollback(ctx, c.xaBranchXid); rollbackErr != nil {
+		err = fmt.Errorf("failed to report XA branch commit-failure xid:%s, err:%w", c.txCtx.XID, rollbackErr)
 	}
 	c.cleanXABranchContext()
 	return err
